@@ -259,3 +259,87 @@ def line1(s: Str, very_first: Bool, enc: Opt[Str]) -> Str:
     if very_first:
         return strip_bom(first_line(s), enc)
     return first_line(s)
+
+
+# ---------------------------------------------------------------- records of a CSV stream (C12, C09)
+@spec(opaque=True)
+def ws_spans(s: Str) -> Seq[Tuple[Int, Int]]:
+    # maximal runs of non-space characters (what the regex [^ ]+ finds; A-RE-runs, validated boundedly)
+    raise NotImplementedError
+
+
+@spec
+def ws_texts(s: Str, spans: Seq[Tuple[Int, Int]], n: Int) -> Seq[Str]:
+    if n <= 0:
+        return []
+    return ws_texts(s, spans, n - 1) + [s[spans[n - 1][0]:spans[n - 1][1]]]
+
+
+@spec
+def record_fields(line: Str, d: Str, policy: Str) -> Seq[Str]:
+    # the fields of one record text under a policy
+    if policy == 'simple':
+        return str_split(line, d)
+    if policy == 'whitespace':
+        return ws_texts(line, ws_spans(line), len(ws_spans(line)))
+    if policy == 'monocolumn':
+        return [line]
+    if '"' in line:
+        return split_spec(line, d, False)
+    return str_split(line, d)
+
+
+@spec
+def record_warn(line: Str, d: Str, policy: Str) -> Bool:
+    if policy == 'simple' or policy == 'whitespace' or policy == 'monocolumn':
+        return False
+    return ('"' in line) and warn_from(line, d, d != ' ', 0)
+
+
+@spec
+def is_comment(line: Str, cp: Opt[Str]) -> Bool:
+    return (not is_none(cp)) and line.startswith(opt_val(cp))
+
+
+@spec
+def row_text(s: Str, rfc: Bool, very_first: Bool, enc: Opt[Str], cp: Opt[Str]) -> Str:
+    # text of the next physical record: one line, or (quoted_rfc) a line continued until its quotes balance
+    if rfc and (not is_comment(line1(s, very_first, enc), cp)) and odd_quotes(line1(s, very_first, enc)):
+        return line1(s, very_first, enc) + rfc_tail(after_first_line(s))
+    return line1(s, very_first, enc)
+
+
+@spec
+def row_rest(s: Str, rfc: Bool, very_first: Bool, enc: Opt[Str], cp: Opt[Str]) -> Str:
+    if rfc and (not is_comment(line1(s, very_first, enc), cp)) and odd_quotes(line1(s, very_first, enc)):
+        return rfc_after(after_first_line(s))
+    return after_first_line(s)
+
+
+@spec
+def has_data_row(s: Str, rfc: Bool, very_first: Bool, enc: Opt[Str], cp: Opt[Str]) -> Bool:
+    # some record that is not a comment line remains
+    if len(s) == 0:
+        return False
+    if is_comment(row_text(s, rfc, very_first, enc, cp), cp):
+        return has_data_row(row_rest(s, rfc, very_first, enc, cp), rfc, False, enc, cp)
+    return True
+
+
+@spec
+def data_row(s: Str, rfc: Bool, very_first: Bool, enc: Opt[Str], cp: Opt[Str]) -> Str:
+    # the next record text, comment-prefixed lines skipped
+    if len(s) == 0:
+        return ''
+    if is_comment(row_text(s, rfc, very_first, enc, cp), cp):
+        return data_row(row_rest(s, rfc, very_first, enc, cp), rfc, False, enc, cp)
+    return row_text(s, rfc, very_first, enc, cp)
+
+
+@spec
+def data_rest(s: Str, rfc: Bool, very_first: Bool, enc: Opt[Str], cp: Opt[Str]) -> Str:
+    if len(s) == 0:
+        return ''
+    if is_comment(row_text(s, rfc, very_first, enc, cp), cp):
+        return data_rest(row_rest(s, rfc, very_first, enc, cp), rfc, False, enc, cp)
+    return row_rest(s, rfc, very_first, enc, cp)
